@@ -1,4 +1,5 @@
-CONSTANTS CMAX = 5
+CONSTANTS CMAX = 6
+WLO = 3
 KS = 2
 MaxCalls = 4
 Sticky = TRUE
